@@ -175,7 +175,7 @@ class OutstationProp(Prop):
                 ops.append(("rx", s if s is not None else src, c if c is not None else bc, hexs(b)))
             if focus == "controls" and r < 55 or r < 12:
                 objs = self.rand_controls(rng, many=rng.chance(1, 10))
-                kind = rng.choice(["sbo", "sbo", "sbo-gap", "sbo-late", "sbo-wrongseq", "sbo-diff", "op-only", "direct", "direct_nr", "sbo-repeat", "sbo-retx-op", "sbo-xx", "sbo-fail-retx"])
+                kind = rng.choice(["sbo", "sbo", "sbo-gap", "sbo-late", "sbo-wrongseq", "sbo-diff", "op-only", "direct", "direct_nr", "sbo-repeat", "sbo-retx-op", "sbo-xx", "sbo-fail-retx", "sbo-confirm", "sbo-confirm"])
                 if kind.startswith("sbo"):
                     rx(frag(seq, FN["select"], objs), MASTER, "none")
                     if kind == "sbo-gap":
@@ -185,6 +185,10 @@ class OutstationProp(Prop):
                         ops.append(("sleep", cfg["select_ms"] + rng.choice([-2, -1, 0, 1, 2])))
                     if kind == "sbo-repeat":
                         rx(frag(seq, FN["select"], objs), MASTER, "none")
+                    if kind == "sbo-confirm":
+                        # stray confirms (solicited / unsolicited, any sequence) between SELECT and OPERATE
+                        for _c in range(rng.range(1, 2)):
+                            rx(frag(rng.below(16), FN["confirm"], uns=rng.chance(1, 2)), MASTER, "none")
                     if kind == "sbo-xx":
                         # another request and its retransmission between SELECT and OPERATE
                         x = frag(rng.below(16), rng.choice([FN["write"], FN["delay"], FN["disable"]]), b"")
